@@ -8,6 +8,7 @@ import (
 	"net/netip"
 	"os"
 	"path/filepath"
+	"strings"
 	"sync"
 	"time"
 
@@ -130,7 +131,11 @@ func insHistory(id string, rng *rand.Rand, lt *layoutTables, actions []string) M
 	serials := []uint32{target, 303986753, 201020304, 99}
 	ops := []string{"GetDevice", "GetCardByIndex", "GetStatus", "GetTimeProfile", "GetListener", "GetEvent", "PutCard", "SetTimeProfile", "AddTask", "ActivateKeypads", "GetDevices", "GetTime", "SetDoorPasscodes", "SetAddress", "SetListener"}
 
-	for _, a := range actions {
+	for _, act := range actions {
+		a := act
+		if strings.HasPrefix(act, "call:") {
+			a = "call"
+		}
 		switch a {
 		case "mutate_caller":
 			// the caller's own slice, its elements and their door-name slices
@@ -173,8 +178,12 @@ func insHistory(id string, rng *rand.Rand, lt *layoutTables, actions []string) M
 		case "call":
 			op := ops[rng.Intn(len(ops))]
 			serial := serials[rng.Intn(len(serials))]
+			forced := false
+			if strings.HasPrefix(act, "call:") { // this operation, for the configured target, answered "succeeded"
+				op, serial, forced = act[5:], target, true
+			}
 			cs := g.call(op, serial)
-			if rng.Intn(4) == 0 {
+			if !forced && rng.Intn(4) == 0 {
 				// arguments outside the accepted domain too (partial / nil maps, missing segments, zero dates): a refused
 				// call must leave its arguments alone just like an accepted one
 				cs = gOut.call(op, serial)
@@ -190,6 +199,9 @@ func insHistory(id string, rng *rand.Rand, lt *layoutTables, actions []string) M
 					copy(m[8:12], req[8:12])
 				case "GetTimeProfile":
 					m[8] = req[8]
+				}
+				if forced && !valueAt8[op] {
+					m[8] = 1
 				}
 				if op == "GetDevices" {
 					return [][]byte{m, l.message(rng, 0x17, []byte{1, 2, 3, 4}, "valid", nil)}
@@ -352,6 +364,14 @@ func runC17(o *opts) (*summary, error) {
 		}
 	}
 	gen(nil, maxLen)
+	// what an operation that SUCCEEDED leaves behind in the client: every operation once for the configured target, answered
+	// "succeeded", then further calls for the same controller - routed by the snapshot like the first - and the configuration
+	// the client reports
+	for r := 0; r < map[bool]int{false: 2, true: 10}[thorough]; r++ {
+		for _, op := range allOps {
+			hists = append(hists, insHistory(fmt.Sprintf("S%d-%s", r, op), rng, lt, []string{"call:" + op, "call:GetCards", "call:" + op, "mutate_returned", "call:GetStatus", "recheck"}))
+		}
+	}
 	nr := 300
 	if thorough {
 		nr = 5000
